@@ -289,7 +289,7 @@ def C02(tier):
     T2 = ['t0', 't1']; T3 = ['t0', 't1', 't2']
     jobs = [dj('deque.pop2_take.sc.r3', 0, T2, 3, False), dj('deque.pop2_take.tso.r3', 0, T2, 3, True),
             dj('deque.pushpop_take.tso.r3', 8, T2, 3, True), dj('deque.pop_take_take.tso.r3', 3, T3, 3, True),
-            dj('deque.trypass_lower_boundary.sc.r3', 9, T2, 3, False, cap=4)]
+            dj('deque.trypass_lower_boundary.sc.r3', 9, T2, 3, False, cap=4), dj('deque.pop_take3.tso.r3', 10, T2, 3, True)]
     if tier == 'thorough':
         jobs += [dj('deque.pop2_take.tso.r5', 0, T2, 5, True, timeout=10000, mem=20), dj('deque.3elem.tso.r3', 2, T2, 3, True, timeout=10000, mem=20),   # deque.3elem.tso.r4: no verdict in 2 h, not in the tier
                  dj('deque.push_take2.tso.r3', 1, T2, 3, True, timeout=10000, mem=20),
